@@ -78,8 +78,8 @@ def ev_scenarios(rng, sid):
         u[0] += 1; return u[0]
     def by(o, line, foreign):      # issue an op from the owning thread or from outside
         return ("m %s" % line) if foreign else ("w%d %s" % (o, line))
-    blocks = []
-    kinds = ["oneshot-write", "persist", "oneshot", "dispatch", "write", "timer1", "timerP", "timerD", "eof", "malformed", "foreign-disable", "redel"]
+    blocks = []; kind_of = {}
+    kinds = ["del-other", "oneshot-write", "persist", "oneshot", "dispatch", "write", "timer1", "timerP", "timerD", "eof", "malformed", "foreign-disable", "redel"]
     rng.shuffle(kinds)
     for kind in kinds[:rng.randint(4, 8)]:
         o = rng.randrange(n); x = nu(); f = rng.random() < 0.5
@@ -92,6 +92,13 @@ def ev_scenarios(rng, sid):
         elif kind == "oneshot":
             B += ["m evnew %d 0 0 0 1" % x, by(o, "evadd %d %d 0 1 0 0" % (x, o), f), "m mkready %d" % x, "m evwait %d 1 3000" % x, "Q", "m evcount %d" % x,
                   "m mkready %d" % x, "Q", "m evcount %d" % x, by(o, "evadd %d %d 0 1 0 0" % (x, o), f), "m evwait %d 2 3000" % x, "Q", "m evcount %d" % x]
+        elif kind == "del-other":
+            # two registrations on one thread, both ready before the loop polls again (added inside ONE callback of the
+            # owner); whichever fires first deletes both: the other one must never be called
+            y = nu()
+            B += ["m evnew %d 0 5 %d 1" % (x, y), "m evnew %d 0 5 %d 0" % (y, x), "m mkready %d" % x, "m mkready %d" % y,
+                  "w%d evadd %d %d 0 0 0 0" % (o, x, o), "w%d evadd %d %d 0 0 0 0" % (o, y, o), "SPAWN",
+                  "m evwait %d 1 3000" % x, "Q", "m evfree %d" % y]
         elif kind == "oneshot-write":
             B += ["m evnew %d 1 0 0 1" % x, by(o, "evadd %d %d 1 1 0 0" % (x, o), f), "m evwait %d 1 3000" % x, "Q", "m evcount %d" % x]
         elif kind == "dispatch":
@@ -123,11 +130,14 @@ def ev_scenarios(rng, sid):
             B += ["m evnew %d 0 0 0 0" % x, by(o, "evadd %d %d 0 0 0 0" % (x, o), f), by(o, "evdel %d %d 0 0 0 0" % (x, o), f),
                   "m mkready %d" % x, "Q", "m evcount %d" % x, by(o, "evdel %d %d 0 0 0 0" % (x, o), f)]
         B.append("m evfree %d" % x)
+        kind_of[id(B)] = kind
         blocks.append((o, B))
     # emit: worker-actor lines are grouped into a program that is spawned and joined in place
     for o, B in blocks:
         for ln in B:
             if ln == "Q": L += ["m quiesce", "m sleep 3000"]
+            elif ln == "SPAWN": L += ["m spawn w%d" % o, "m join w%d" % o]
+            elif ln.startswith("w") and kind_of.get(id(B)) == "del-other": L.append(ln)
             elif ln.startswith("w"):
                 L += [ln, "m spawn w%d" % o, "m join w%d" % o]
             else: L.append(ln)
